@@ -235,6 +235,19 @@ type runState struct {
 	scribble        bool
 	orderNotImposed bool
 	cfgModified     bool
+	hold            *histHold // long-history stream: shadow stubs hang until released
+}
+
+// the shadow calls of a long history on one proxy: every stub announces itself and then hangs
+// until the harness releases all of them (or its context ends; the shadow timeout is an hour)
+type histHold struct {
+	release chan struct{}
+	entered chan struct{}
+	exited  sync.WaitGroup
+}
+
+func newHold(capacity int) *histHold {
+	return &histHold{release: make(chan struct{}), entered: make(chan struct{}, capacity)}
 }
 
 type tagErr struct{ tag string }
@@ -439,6 +452,17 @@ func (st *runState) shadowStub(i int) proxy.Proxy {
 		st.mu.Unlock()
 		if first {
 			defer st.shDone.Done()
+		}
+		if h := st.hold; h != nil {
+			h.exited.Add(1)
+			defer h.exited.Done()
+			h.entered <- struct{}{}
+			select {
+			case <-h.release:
+			case <-ctx.Done():
+			case <-time.After(90 * time.Second): // never: keeps the generator from hanging
+			}
+			return nil, ctx.Err()
 		}
 		sout := st.spec.bes[i].sout
 		if sout == sGarbage && st.scribble {
@@ -1220,6 +1244,7 @@ type job struct {
 	steps             []*caseSpec
 	goroutines, iters int  // > 0: concurrent reuse
 	rebuild           bool // the steps are successive builds from ONE configuration value
+	hist              int  // > 0: that many client calls on one proxy while every shadow call hangs
 }
 
 func (j job) run() []emitted {
@@ -1228,6 +1253,9 @@ func (j job) run() []emitted {
 	}
 	if len(j.steps) == 1 && j.steps[0].seq == "" {
 		return []emitted{evalCase(j.steps[0])}
+	}
+	if j.hist > 0 {
+		return j.runHistory()
 	}
 	if j.rebuild {
 		// New is called again and again on the SAME *config.EndpointConfig (an endpoint
@@ -1246,6 +1274,119 @@ func (j job) run() []emitted {
 	var res []emitted
 	for _, st := range j.steps {
 		res = append(res, emitCase(st, pi.call(st, true), si.call(st, true)))
+	}
+	return res
+}
+
+// how long a client call may take before it counts as held back by shadow work.  On the
+// unchanged code the call returns in microseconds; nothing else waits this long.
+const blockedAfter = 2 * time.Second
+
+// ONE shadow-factory instance serves j.hist client calls one after the other while every
+// shadow call so far is still hung (shadow timeout: an hour; the stubs are released by the
+// harness at the end).  A client call must return although all earlier shadow calls are
+// pending: "blocked" = it had not returned after blockedAfter and did return once the harness
+// released the hung shadow calls.  Every wait is bounded.
+func (j job) runHistory() []emitted {
+	spec := j.steps[0]
+	pi, si := build(spec, false), build(spec, true)
+	nsh := 0
+	for _, b := range spec.bes {
+		if b.ns.shadow() {
+			nsh++
+		}
+	}
+	bes, besJS := besCoq(spec)
+	hold := newHold(j.hist*nsh + 8)
+	var holds []*histHold
+	pending := 0 // calls whose shadow calls are hung under the current hold
+	var res []emitted
+	for k := 0; k < j.hist; k++ {
+		plain := pi.call(spec, true)
+		st := &runState{spec: spec, shadowed: true, regs: make([]regObs, len(spec.bes)), shs: make([]shObs, len(spec.bes)),
+			allReached: make(chan struct{}), clientEnded: make(chan struct{}), nShadow: nsh, hold: hold}
+		st.shDone.Add(nsh)
+		sh := runResult{st: st, newErr: si.newErr, panicked: si.panicked}
+		alarm, blocked := false, false
+		hist := pending
+		if si.p != nil && sh.panicked == "" && sh.newErr == "" {
+			req := mkRequest(spec.req)
+			ctx, cancel := context.WithCancel(context.WithValue(context.WithValue(context.Background(), clientKey, "client-value"), stateKey, st))
+			st.tBefore = time.Now()
+			type ret struct {
+				resp *proxy.Response
+				err  error
+				pan  string
+			}
+			done := make(chan ret, 1)
+			go func() {
+				var r ret
+				defer func() {
+					if x := recover(); x != nil {
+						r.pan = fmt.Sprint("call: ", x)
+					}
+					done <- r
+				}()
+				r.resp, r.err = si.p(ctx, req)
+			}()
+			var r ret
+			select {
+			case r = <-done:
+			case <-time.After(blockedAfter):
+				// held back: let the hung shadow calls go and see whether that frees the caller
+				blocked = true
+				close(hold.release)
+				select {
+				case r = <-done:
+				case <-time.After(10 * time.Second):
+					r.pan = "the client call did not return even after the hung shadow calls were released"
+					alarm = true
+				}
+			}
+			sh.resp, sh.err, sh.panicked, sh.called = r.resp, r.err, r.pan, true
+			cancel()                   // the client's request ends; the shadow calls stay hung
+			for i := 0; i < nsh; i++ { // this call's shadow backends were reached
+				select {
+				case <-hold.entered:
+				case <-time.After(watchdogWait()):
+					alarm = true
+					atomic.AddInt64(&watchdogFired, 1)
+				}
+			}
+			pending++
+			if blocked {
+				holds = append(holds, hold)
+				hold, pending = newHold(j.hist*nsh+8), 0
+			}
+		}
+		pc, pj := cresCoq(plain)
+		sc, sj := cresCoq(sh)
+		term := emit.App("CHist", bes, emit.Nat(hist), emit.Bool(blocked), emit.Bool(alarm), pc, sc)
+		js := map[string]interface{}{"level": "history", "label": "long-history", "reused_instance": spec.seq, "step": k, "backends": besJS,
+			"hung_shadow_calls_of_earlier_requests": hist * nsh, "shadow_timeout": "1h",
+			"observed": map[string]interface{}{"client_call_blocked_until_shadow_calls_released": blocked, "blocked_after": blockedAfter.String(),
+				"harness_alarm": alarm, "plain_result": pj, "with_shadows_result": sj}}
+		res = append(res, emitted{"", term, js, fmt.Sprintf("H|%s|%d", spec.seq, k), []string{"level:history", "stream:long-history", fmt.Sprintf("backends:%d", len(spec.bes)), fmt.Sprintf("shadows:%d", nsh)}, true})
+	}
+	// release everything and wait (bounded) for the stubs to leave
+	holds = append(holds, hold)
+	for _, h := range holds {
+		select {
+		case <-h.release:
+		default:
+			close(h.release)
+		}
+	}
+	gone := make(chan struct{})
+	go func() {
+		for _, h := range holds {
+			h.exited.Wait()
+		}
+		close(gone)
+	}()
+	select {
+	case <-gone:
+	case <-time.After(10 * time.Second):
 	}
 	return res
 }
@@ -1797,6 +1938,19 @@ func main() {
 		}
 	}
 
+	// ---- 5c. long history: one proxy, many client calls, every shadow call hung ----
+	{
+		n := 300
+		if cfg.Thorough() {
+			n = 1600
+		}
+		h1 := &caseSpec{bes: []beSpec{reg("POST", rPayload), shd("POST", "1h", sHang)}, ep: time.Hour, req: defaultReq(bodies[3]), mode: mRegularFirst, fullcopy: true,
+			seq: "history-1reg-1shadow", label: "long-history"}
+		h2 := &caseSpec{bes: []beSpec{shd("GET", "1h", sHang), reg("GET", rPayload), shd("POST", "2h", sHang), reg("POST", rIncomplete)}, ep: 2 * time.Hour, req: defaultReq(bodies[2]), mode: mRegularFirst, fullcopy: true,
+			seq: "history-2reg-2shadow", label: "long-history"}
+		jobs = append(jobs, job{steps: []*caseSpec{h1}, hist: n}, job{steps: []*caseSpec{h2}, hist: n})
+	}
+
 	// ---- 6. instance reuse, concurrent (last: the number of cases it yields is data dependent
 	// only when requests of one instance interfere) ----
 	{
@@ -1841,6 +1995,9 @@ func main() {
 	starts := make([]int, len(jobs)+1)
 	for j := range jobs {
 		n := len(jobs[j].steps)
+		if jobs[j].hist > 0 {
+			n = jobs[j].hist
+		}
 		if jobs[j].goroutines > 0 {
 			n = 0 // unknown before it ran; these jobs come last
 		}
@@ -1900,5 +2057,5 @@ func main() {
 			w.Add(e.term, e.js, "", e.canon, e.nontr)
 		}
 	}
-	w.Close("corpus (GraphQL GET/POST shadow or regular next to plain backends, the shapes of shadow_test.go, empty request, degenerate configurations); every shape of the proxy extra_config entry (namespace absent / not a map / shadow flag absent, not a bool, true, false x shadow_timeout absent, not a string, 10 strings) next to regular backends; every split of 2..4 backends into >=1 regular and >=1 shadow x every shadow outcome vector {ok,error,garbage,hang}^s x 3 imposed timings (quick: 4 backends sampled 1/3), regular outcomes as in C01 and bodies drawn per case; random stream (random requests, methods, timeouts, GraphQL stages, 85% merge bound below the shadow timeout); instance reuse: ONE plain and ONE NewShadowFactory-built proxy per configuration serving a sequence of 4-6 requests that differ in body, headers, params, regular and shadow outcomes and timing (3 corpus sequences, every split of 2..3 backends x 2 random sequences, with and without hanging shadows), and 3 configurations hit by 12 goroutines x 40 iterations over 10 distinct inputs (each distinct observation emitted once). rebuild stream: every split of 2..4 backends, NewShadowFactory(f).New called 3 times on the SAME configuration value, each resulting proxy driven, deep snapshot of the caller's configuration compared after every New. Each case = one call of the plain factory's endpoint on the regular backends + one call of NewShadowFactory's endpoint. nontrivial = at least one shadow backend", true)
+	w.Close("corpus (GraphQL GET/POST shadow or regular next to plain backends, the shapes of shadow_test.go, empty request, degenerate configurations); every shape of the proxy extra_config entry (namespace absent / not a map / shadow flag absent, not a bool, true, false x shadow_timeout absent, not a string, 10 strings) next to regular backends; every split of 2..4 backends into >=1 regular and >=1 shadow x every shadow outcome vector {ok,error,garbage,hang}^s x 3 imposed timings (quick: 4 backends sampled 1/3), regular outcomes as in C01 and bodies drawn per case; random stream (random requests, methods, timeouts, GraphQL stages, 85% merge bound below the shadow timeout); instance reuse: ONE plain and ONE NewShadowFactory-built proxy per configuration serving a sequence of 4-6 requests that differ in body, headers, params, regular and shadow outcomes and timing (3 corpus sequences, every split of 2..3 backends x 2 random sequences, with and without hanging shadows), and 3 configurations hit by 12 goroutines x 40 iterations over 10 distinct inputs (each distinct observation emitted once). rebuild stream: every split of 2..4 backends, NewShadowFactory(f).New called 3 times on the SAME configuration value, each resulting proxy driven, deep snapshot of the caller's configuration compared after every New. long-history stream: 2 configurations, one NewShadowFactory-built proxy serving 300 (thorough 1600) client calls while every shadow call so far is still hung, each client call must return without the hung shadow calls being released. Each case = one call of the plain factory's endpoint on the regular backends + one call of NewShadowFactory's endpoint. nontrivial = at least one shadow backend", true)
 }
